@@ -6,7 +6,7 @@ package rfc3986
 import "strings"
 
 type Parts struct {
-	Scheme, Authority, Path, Query, Fragment string
+	Scheme, Authority, Path, Query, Fragment       string
 	HasScheme, HasAuthority, HasQuery, HasFragment bool
 }
 
